@@ -76,6 +76,14 @@ func (c *Ctx) SubRng(label string) *rand.Rand {
 	return rand.New(rand.NewPCG(binary.LittleEndian.Uint64(s[:8]), binary.LittleEndian.Uint64(s[8:16])))
 }
 
+// GlobalRng derives a PRNG stream that is the same in every batch of a run.
+func (c *Ctx) GlobalRng(label string) *rand.Rand {
+	h := sha256.New()
+	fmt.Fprintf(h, "%d|%s|global|%s", c.Seed, c.Prop, label)
+	s := h.Sum(nil)
+	return rand.New(rand.NewPCG(binary.LittleEndian.Uint64(s[:8]), binary.LittleEndian.Uint64(s[8:16])))
+}
+
 // Quick reports whether the tier is quick.
 func (c *Ctx) Quick() bool { return c.Tier != "thorough" }
 
